@@ -84,10 +84,7 @@ class CubicSplineSQuad(BaseSQuad):
 ######################## weight-based cumsum quadrature ########################
 class WeightBasedSQuad(BaseSQuad):
     def __init__(self, x, **options):
-        # x: (nx,)
-        xshape = x.shape
-        nx = xshape[-1]
-        x = x.reshape(-1, nx)
+        # x: (*, nx)
         self.w = self.get_weights(x, **options)  # (*, nx, nx)
 
     @abstractmethod
